@@ -41,6 +41,32 @@ def run(ctx):
     require_fields(ctx.program, 'cacheutils.ThresholdCounter', ['_count_map', 'total', '_cur_bucket', '_thresh_count', '_threshold'])
     prog = ctx.program
     ci = prog.cls(CLS)
+    # T15.width: the bucket width is floor(1 / threshold) computed on the *true* quotient.  The threshold is a float: float floor
+    # division is taken on its exact binary value (1 // 0.1 == 9.0, 1 // 0.001 == 999.0), one less than the width the bound
+    # floor(total / width) is stated for.
+    init = prog.func(CLS + '.__init__')
+    thr = 'threshold' if 'threshold' in init.params else None
+    if thr is None:
+        raise AnalysisError('anchor vanished: parameter threshold of ThresholdCounter.__init__')
+    wi_, ipaths_ = paths_of(prog, init, recv=ci)
+    n_w = 0
+    seen_w = set()
+    for p in ipaths_:
+        for o in p.ops:
+            if o.kind == 'attr_store' and txt(o.val) == 'self._thresh_count' and o.info is not None:
+                e = wi_.expand(o.info)
+                key = txt(e)
+                if key in seen_w:
+                    continue
+                seen_w.add(key)
+                n_w += 1
+                fd = [b for b in ast.walk(e) if isinstance(b, ast.BinOp) and isinstance(b.op, ast.FloorDiv) and
+                      any(isinstance(x, ast.Name) and x.id == thr or (isinstance(x, ast.Attribute) and x.attr == '_threshold')
+                          for x in ast.walk(b))]
+                ctx.ob('T15.width', init.fq, 'the bucket width is derived from the true quotient 1 / threshold (no float floor division)',
+                       not fd, loc=loc(init, o.node), detail='width = %s' % key)
+    if n_w == 0:
+        ctx.unknown('T15.width', init.fq, 'no store to self._thresh_count found in __init__', init.loc)
     mc = prog.func(CLS + '.most_common')
     # T19a: `n is None` must be reachable: no earlier return under a truthiness test of n
     check_none_default(ctx, mc, 'n', rule='T19a')
